@@ -1,5 +1,6 @@
 import Csverif.Proofs.Storage
 import Csverif.Proofs.StoragePaged
+import Csverif.Proofs.StorageConn
 /-
 C09 — storage backends behave as a tag-isolated map of rows.
 Model: Model/Storage.lean (SqliteStorage statement semantics; MockStorage fixture).
@@ -426,6 +427,222 @@ theorem paged_off_by_one_hidden_by_gap :
     let t := (run ([] : Table Nat) [.create "t" 10, .create "t" 20, .create "u" 99, .create "t" 30]).1
     pagedReadAll t (some "t") 2 1 = (step t (.readAll (some "t"))).2 := by
   decide
+
+/-! ### Durability across reconnects (connection-level refinement, Model/Storage.lean `namespace Conn`)
+
+The object replaces its connection whenever `execute` raises `OperationalError`.  If EVERY connection it can ever use is in
+autocommit mode (`Conn.Good`: Props/C09Sql.lean `code_cfg_autocommit` derives this from the connection-configuration sites of
+the code), then - for every sequence of calls, faults (transient, persistent, during fetch), lock windows of another
+connection and reopens - each acknowledged call has moved the COMMITTED table exactly as `Sqlite.step` says, at once; a failed
+call has not touched it; and the object's own connection, a fresh connection and the reopened file all read that one table.
+So every theorem above (stated for `Sqlite.step` / `Sqlite.run`) speaks about what is durably in the file.
+If only the first connection is configured (`reconnAuto = false`) acknowledged writes are lost: `non_autocommit_reconnect_loses_writes`. -/
+section ConnLevel
+open Conn
+
+theorem conn_init_inv (cfg : Cfg) (hc : Good cfg) : CInv (Conn.init cfg : Conn.St V) := ⟨hc.1, rfl, rfl⟩
+
+/-- what `Conn.step` does on a call that is not `reopen` -/
+theorem conn_step_call (cfg : Cfg) (s : Conn.St V) (o : Op V) (n : Nat) (ff : Bool) (ho : o ≠ .reopen) :
+    Conn.step cfg s (.call o n ff) =
+      (match (attempt cfg s o n).2 with
+       | none => ((attempt cfg s o n).1, .operationalError)
+       | some r => if ff && usesFetch o then ((attempt cfg s o n).1, .operationalError) else ((attempt cfg s o n).1, .ok r)) := by
+  cases o <;> first | rfl | exact absurd rfl ho
+
+/-- the connection invariant (autocommit, no open transaction, view = committed file) survives every step -/
+theorem conn_inv_step (cfg : Cfg) (hc : Good cfg) (s : Conn.St V) (h : CInv s) (cop : COp V) :
+    CInv (Conn.step cfg s cop).1 := by
+  cases cop with
+  | call o n ff =>
+    have ha := (attempt_good cfg hc s h o n).1
+    by_cases ho : o = .reopen
+    · subst ho
+      simp only [Conn.step]
+      refine ⟨?_, rfl, rfl⟩
+      show (if n = 0 then cfg.initAuto else cfg.reconnAuto) = true
+      split
+      · exact hc.1
+      · exact hc.2
+    · rw [conn_step_call cfg s o n ff ho]
+      split
+      · exact ha
+      · split <;> exact ha
+  | fresh tag => exact h
+  | lock =>
+    simp only [Conn.step]
+    split
+    · exact h
+    · exact h
+  | unlock => exact h
+
+/-- an ACKNOWLEDGED call returned what the single-table model returns on the committed table and moved the committed table
+    exactly as the model moves it - at once, whatever faults and reconnects happened inside the call -/
+theorem conn_call_acknowledged (cfg : Cfg) (hc : Good cfg) (s : Conn.St V) (h : CInv s) (o : Op V) (n : Nat) (ff : Bool)
+    (r : Res V) (hr : (Conn.step cfg s (.call o n ff)).2 = .ok r) :
+    r = (Sqlite.step s.committed o).2 ∧ (Conn.step cfg s (.call o n ff)).1.committed = (Sqlite.step s.committed o).1 := by
+  by_cases ho : o = .reopen
+  · subst ho
+    simp only [Conn.step, CRes.ok.injEq] at hr
+    exact ⟨hr.symm, rfl⟩
+  · rw [conn_step_call cfg s o n ff ho] at hr ⊢
+    rcases (attempt_good cfg hc s h o n).2.2 with ⟨h2, h3⟩ | ⟨h2, h3⟩
+    · rw [h2] at hr ⊢
+      simp only at hr ⊢
+      split at hr
+      · cases hr
+      · simp only [CRes.ok.injEq] at hr
+        rename_i hff
+        rw [if_neg hff]
+        exact ⟨hr.symm, h3⟩
+    · rw [h2] at hr
+      cases hr
+
+/-- a call that raised `OperationalError` left the committed table untouched (no partial effect) -/
+theorem conn_call_failed (cfg : Cfg) (hc : Good cfg) (s : Conn.St V) (h : CInv s) (o : Op V) (n : Nat) (ff : Bool)
+    (hr : (Conn.step cfg s (.call o n ff)).2 = .operationalError) :
+    (Conn.step cfg s (.call o n ff)).1.committed = s.committed := by
+  by_cases ho : o = .reopen
+  · subst ho
+    simp only [Conn.step] at hr
+    cases hr
+  · rw [conn_step_call cfg s o n ff ho] at hr ⊢
+    rcases (attempt_good cfg hc s h o n).2.2 with ⟨h2, h3⟩ | ⟨h2, h3⟩
+    · rw [h2] at hr ⊢
+      simp only at hr ⊢
+      split at hr
+      · rename_i hff
+        rw [if_pos hff]
+        -- only reads fetch: the statement that ran did not change the table
+        have hw : isWrite o = false := by
+          have : usesFetch o = true := by
+            simp only [Bool.and_eq_true] at hff; exact hff.2
+          cases o <;> simp_all [usesFetch, isWrite]
+        show (attempt cfg s o n).1.committed = s.committed
+        rw [h3, step_nonwrite _ o hw]
+      · cases hr
+    · rw [h2]
+      exact h3
+
+/-- a fresh connection reads the committed table; `lock` / `unlock` / `fresh` never change it -/
+theorem conn_fresh_reads_committed (cfg : Cfg) (s : Conn.St V) (tag : Option Tag) :
+    Conn.step cfg s (.fresh tag) = (s, .ok (Sqlite.step s.committed (.readAll tag)).2) := rfl
+
+theorem conn_lock_keeps_committed (cfg : Cfg) (s : Conn.St V) :
+    (Conn.step cfg s .lock).1.committed = s.committed ∧ (Conn.step cfg s .unlock).1.committed = s.committed := by
+  refine ⟨?_, rfl⟩
+  simp only [Conn.step]
+  split <;> rfl
+
+/-- Refinement for every sequence of calls, faults, lock windows and reopens (induction, no bound): the committed table is
+    the single-table model run over exactly the acknowledged calls, and the connection invariant holds at the end. -/
+theorem conn_run_refines (cfg : Cfg) (hc : Good cfg) (cops : List (COp V)) (s : Conn.St V) (h : CInv s) :
+    CInv (Conn.run cfg s cops).1 ∧
+    (Conn.run cfg s cops).1.committed = (Sqlite.run s.committed (acked cops (Conn.run cfg s cops).2)).1 := by
+  induction cops generalizing s with
+  | nil => exact ⟨h, rfl⟩
+  | cons cop cops ih =>
+    have hi := conn_inv_step cfg hc s h cop
+    have ih' := ih (Conn.step cfg s cop).1 hi
+    simp only [Conn.run]
+    refine ⟨ih'.1, ?_⟩
+    rw [ih'.2]
+    cases cop with
+    | call o n ff =>
+      cases hres : (Conn.step cfg s (.call o n ff)).2 with
+      | ok r =>
+        simp only [acked, Sqlite.run]
+        rw [(conn_call_acknowledged cfg hc s h o n ff r hres).2]
+      | operationalError =>
+        simp only [acked]
+        rw [conn_call_failed cfg hc s h o n ff hres]
+      | busy =>
+        exfalso
+        by_cases ho : o = .reopen
+        · subst ho; simp only [Conn.step] at hres; cases hres
+        · rw [conn_step_call cfg s o n ff ho] at hres
+          split at hres
+          · cases hres
+          · split at hres <;> cases hres
+    | fresh tag =>
+      cases hres : (Conn.step cfg s (.fresh tag)).2 <;> simp only [acked] <;> rfl
+    | lock =>
+      cases hres : (Conn.step cfg s .lock).2 <;> simp only [acked] <;> rw [(conn_lock_keeps_committed cfg s).1]
+    | unlock =>
+      cases hres : (Conn.step cfg s .unlock).2 <;> simp only [acked] <;> rfl
+
+/-- Every acknowledged write is visible everywhere at once: after ANY history (from a fresh file), the object's own
+    `read_all`, a fresh connection, and `read_all` after close + reopen (also a reopen whose set-up hit a fault) all return the
+    rows of the single-table model run over the acknowledged calls. -/
+theorem acknowledged_visible_everywhere (cfg : Cfg) (hc : Good cfg) (cops : List (COp V)) (tag : Option Tag) :
+    let s := (Conn.run cfg (Conn.init cfg : Conn.St V) cops).1
+    let T := (Sqlite.run ([] : Table V) (acked cops (Conn.run cfg (Conn.init cfg : Conn.St V) cops).2)).1
+    let want : CRes V := .ok (Sqlite.step T (.readAll tag)).2
+    (Conn.step cfg s (.fresh tag)).2 = want ∧
+    (Conn.step cfg s (.call (.readAll tag) 0 false)).2 = want ∧
+    (∀ n, (Conn.step cfg (Conn.step cfg s (.call .reopen n false)).1 (.call (.readAll tag) 0 false)).2 = want) := by
+  intro s T want
+  have hrun := conn_run_refines cfg hc cops (Conn.init cfg : Conn.St V) (conn_init_inv cfg hc)
+  have hT : s.committed = T := hrun.2
+  have hs : CInv s := hrun.1
+  -- a plain read_all on a state with the invariant
+  have hread : ∀ (s' : Conn.St V), CInv s' → s'.committed = T →
+      (Conn.step cfg s' (.call (.readAll tag) 0 false)).2 = want := by
+    intro s' hs' hc'
+    cases hres : (Conn.step cfg s' (.call (.readAll tag) 0 false)).2 with
+    | ok r =>
+      have := (conn_call_acknowledged cfg hc s' hs' (.readAll tag) 0 false r hres).1
+      rw [this, hc']
+    | operationalError =>
+      exfalso
+      rw [conn_step_call cfg s' (.readAll tag) 0 false (by intro hh; cases hh)] at hres
+      have hat : (attempt cfg s' (.readAll tag) 0).2 = some (exec s' (.readAll tag)).2 := by
+        simp [attempt, isWrite]
+      rw [hat] at hres
+      simp at hres
+    | busy =>
+      exfalso
+      rw [conn_step_call cfg s' (.readAll tag) 0 false (by intro hh; cases hh)] at hres
+      split at hres
+      · cases hres
+      · split at hres <;> cases hres
+  refine ⟨?_, hread s hs hT, ?_⟩
+  · show CRes.ok (Sqlite.step s.committed (.readAll tag)).2 = want
+    rw [hT]
+  · intro n
+    apply hread
+    · exact conn_inv_step cfg hc s hs _
+    · show s.committed = T
+      exact hT
+
+/-- kernel-checked witness (the R4-C09 defect): autocommit configured for the first connection only.  A transient fault in
+    an update makes the object reconnect; the update and a later create are acknowledged and visible through the object,
+    but a fresh connection and the reopened file still hold the old row only -/
+theorem non_autocommit_reconnect_loses_writes :
+    let cfg : Cfg := { initAuto := true, reconnAuto := false }
+    (Conn.run cfg (Conn.init cfg : Conn.St Nat)
+      [ .call (.create "t" 10) 0 false, .call (.update "t" 11 (some 1)) 1 false, .call (.create "t" 20) 0 false,
+        .call (.readAll (some "t")) 0 false, .fresh (some "t"), .lock,
+        .call .reopen 0 false, .call (.readAll (some "t")) 0 false ]).2 =
+      [ .ok (.id 1), .ok (.count 1), .ok (.id 2),
+        .ok (.rows [("t", 1, 11), ("t", 2, 20)]), .ok (.rows [("t", 1, 10)]), .busy,
+        .ok .unit, .ok (.rows [("t", 1, 10)]) ] := by
+  decide
+
+/-- the same history with every connection in autocommit mode: nothing is lost (and the other connection gets its lock) -/
+theorem autocommit_reconnect_keeps_writes :
+    let cfg : Cfg := { initAuto := true, reconnAuto := true }
+    (Conn.run cfg (Conn.init cfg : Conn.St Nat)
+      [ .call (.create "t" 10) 0 false, .call (.update "t" 11 (some 1)) 1 false, .call (.create "t" 20) 0 false,
+        .call (.readAll (some "t")) 0 false, .fresh (some "t"), .lock, .call (.update "t" 12 (some 1)) 0 false, .unlock,
+        .call .reopen 1 false, .call (.readAll (some "t")) 0 true, .call (.readAll (some "t")) 2 false,
+        .call (.readAll (some "t")) 0 false ]).2 =
+      [ .ok (.id 1), .ok (.count 1), .ok (.id 2),
+        .ok (.rows [("t", 1, 11), ("t", 2, 20)]), .ok (.rows [("t", 1, 11), ("t", 2, 20)]), .ok .unit, .operationalError,
+        .ok .unit, .ok .unit, .operationalError, .operationalError, .ok (.rows [("t", 1, 11), ("t", 2, 20)]) ] := by
+  decide
+
+end ConnLevel
 
 /-! Known findings about the `MockStorage` fixture (not editable: it is part of the test suite),
     as kernel-checked witnesses on the model; both are replayed on the real class on every run. -/
